@@ -36,16 +36,15 @@ if hasattr(sys, 'set_int_max_str_digits'):
 KNOWN_FUNCS = ['int', 'float', 'str', 'abs', 'len', 'bool']
 CHAIN_CLASSES = {'Sum', 'Term', 'ShiftBitwise', 'AndBitwise', 'XorBitwise', 'OrBitwise'}
 ALL_REGIONS = frozenset(['triple', 'prefix', 'escape', 'strstr', 'bigint', 'arity', 'upperhex', 'otherfn', 'badref', 'confuse', 'tilde', 'fmt'])
-# the one region in which the evaluator is known to differ (known finding): string tokens with escapes, joined as texts
-EXCLUDED_KEYS = {
-	'escape': 'escape-merge-concat',
-}
+# regions in which the evaluator is known to differ (known findings): none is left. (String tokens with escapes joined as texts were the
+# last one — key `escape-merge-concat`, repaired in 05486b1: such joins are refused now; a mismatch there is a regression.)
+EXCLUDED_KEYS: dict[str, str] = {}
 # special regions a member gets at most ONE of (so that a finding is never attributed to the wrong one); all but `escape` were
 # defects that are repaired now (c8f7860, 8fac22f, e338962, b7e37da): a mismatch there is a regression and gets a `mismatch:` key
 SPECIAL_FEATURES = {'triple', 'prefix', 'escape', 'strstr', 'arity2', 'bigdiv'}
 MALFORMED_REGIONS = {'badref', 'confuse', 'tilde', 'otherfn', 'arity', 'upperhex', 'fmt'}
 REGION_FEATURE = {'triple', 'prefix', 'escape', 'strstr', 'arity'}
-KEY_PRIORITY = ['escape']
+KEY_PRIORITY: list[str] = []
 # a triple-quoted / prefixed string literal as the WHOLE enum value used to take the Literal shortcut of py2cpp.py (tokens[1:-1], no
 # evaluator); repaired in 61fd1e4 (it is refused now): a mismatch there is a regression and keeps this key
 LONE_LITERAL_KEY = 'output-lone-nonplain-string-literal'
@@ -320,7 +319,9 @@ class Gen:
 			k = rng.randint(1, len(digits) - 1)
 			digits = digits[:k] + '_' + digits[k:]
 		sign = rng.choice(['', '', '', '-', '-', '+'])
-		pad_l, pad_r = rng.choice([('', ''), ('', ''), ('', ''), (' ', ''), ('', ' '), ('  ', ' '), ('\\t', ' ')])
+		pad_l, pad_r = rng.choice([('', ''), ('', ''), ('', ''), (' ', ''), ('', ' '), ('  ', ' '), ('\\t', ' '),
+			# what int()/float() strip beyond ASCII blanks, and what only str.isspace()/nothing counts as blank (ValueError)
+			('\x0b', '\x0c'), ('\x85', '\xa0'), ('\u2003', '\u3000'), ('\u2028', '\u205f'), ('\x1c', ''), ('', '\x1f'), ('\u200b', ''), ('\ufeff', ' ')])
 		return f'{pad_l}{sign}{digits}{pad_r}'
 
 	def primary(self, kind: str, d: int) -> tuple[str, Any]:
@@ -951,32 +952,60 @@ def stream_py(ctx: Ctx, cases: list[Case]) -> Stream:
 	return st
 
 
+
+
+def gen_body(rng: random.Random) -> str:
+	"""Body of a valid single-quoted token: plain pieces, octal (1-3 digits), \\xhh and one-character escapes, unknown escapes."""
+	parts = []
+	for _ in range(rng.randint(0, 6)):
+		r = rng.random()
+		if r < 0.35:
+			n = rng.choice([1, 1, 2, 2, 3])
+			digits = ''.join(rng.choice('01234567') for _ in range(n))
+			if n == 3 and digits[0] > '3':
+				digits = rng.choice('0123') + digits[1:]
+			parts.append('\\' + digits)
+		elif r < 0.45:
+			parts.append('\\x' + rng.choice('0123456789abcdefABCDEF') + rng.choice('0123456789abcdefABCDEF'))
+		elif r < 0.6:
+			parts.append('\\' + rng.choice(['n', 't', 'r', 'a', 'b', 'f', 'v', '\\', "'", '"']))
+		elif r < 0.65:
+			parts.append('\\' + rng.choice(['d', 'w', 'z', ' ', '8', '9']))
+		else:
+			parts.append(rng.choice(['a', 'b', '1', '2', '7', '8', '9', '0', ' ', 'x41', 'é', 'x', 'n', '"']))
+	return ''.join(parts)
+
+
 def stream_unescape(ctx: Ctx) -> Stream:
-	"""`decodeOct` (the decoder `C17.escape_counterexample` is stated with) against CPython's own decoding of a literal body."""
+	"""`decodeEsc` / `joinsEscape` (the decoder and the join test `C17.join_decodes`, `catSafe_decodes` and `escape_counterexample` are
+	stated with) against CPython's own decoding of a literal body and against the regular expressions of the proposed repair."""
 	rng = ctx.sub_rng('unescape')
+	from translate import gen_eval_ops
+	try:
+		pats = gen_eval_ops.read_joins_patterns()  # the two patterns of `_joins_escape`, as the source has them now
+	except Exception:  # noqa: BLE001 - the translator stage reports the broken tie; the stream still runs against the proved patterns
+		pats = (gen_eval_ops.JOINS_LEFT_EXPECTED, gen_eval_ops.JOINS_RIGHT_EXPECTED)
+	joins_left, joins_right = re.compile(pats[0]), re.compile(pats[1])
 	triples = []
-	for i in range(ctx.scale(300, 3000)):
-		parts = []
-		for _ in range(rng.randint(1, 6)):
-			r = rng.random()
-			if r < 0.45:
-				n = rng.choice([1, 1, 2, 2, 3])
-				digits = ''.join(rng.choice('01234567') for _ in range(n))
-				if n == 3 and digits[0] > '3':
-					digits = rng.choice('0123') + digits[1:]
-				parts.append('\\' + digits)
-			else:
-				parts.append(rng.choice(['a', 'b', '1', '2', '7', '8', '9', '0', ' ', 'x41', 'é']))
-		body = ''.join(parts)
-		try:
-			with warnings.catch_warnings():
-				warnings.simplefilter('ignore')  # `\\777` (> 0o377) still decodes, with a SyntaxWarning
-				real = hx(eval(f"'{body}'", {'__builtins__': {}}))  # noqa: S307 - generated literal
-		except Exception as e:  # noqa: BLE001
-			real = type(e).__name__
-		triples.append(({'class': f'escapes={body.count(chr(92))}', 'body': body}, [f'unesc\t{hx(body)}'], [real]))
+	for i in range(ctx.scale(400, 4000)):
+		left, right = gen_body(rng), gen_body(rng)
+		if rng.random() < 0.3:
+			right = rng.choice('0123456789abx') + right
+		ops, real = [], []
+		for body in (left, right, left + right):
+			try:
+				with warnings.catch_warnings():
+					warnings.simplefilter('ignore')  # `\\777` (> 0o377) and unknown escapes still decode, with a SyntaxWarning
+					real.append(hx(eval(f"'{body}'", {'__builtins__': {}})))  # noqa: S307 - generated literal
+			except Exception as e:  # noqa: BLE001
+				real.append(type(e).__name__)
+			ops.append(f'unesc\t{hx(body)}')
+		ops.append(f'joins\t{hx(left)}\t{hx(right)}')
+		real.append('true' if joins_left.search(left) is not None and joins_right.match(right) is not None else 'false')
+		triples.append(({'class': f"joins={real[-1]}", 'left': left, 'right': right}, ops, real))
 	st = common.correspond('unescape', triples, 'eval', classify=classify_case)
-	st.note = 'bodies of plain and octal-escape pieces (1-3 digits, greedy runs); CPython eval of the quoted body vs decodeOct'
+	st.note = ('pairs of valid token bodies (plain pieces, octal 1-3 digits in greedy runs, \\xhh, one-character and unknown escapes): CPython eval of the quoted body vs decodeEsc '
+		'for left, right and their join; the two regular expressions of the shipped `_joins_escape` (read from evaluator.py) vs joinsEscape')
 	return st
 
 
@@ -1321,8 +1350,6 @@ def search_output(ctx: Ctx, cases: list[Case]) -> SearchResult:
 			if bad:
 				if lone:
 					key = LONE_LITERAL_KEY
-				elif 'escape' in m.feats:
-					key = EXCLUDED_KEYS['escape']
 				else:
 					key = f"output-mismatch:{(read_emitted(text) or ('text', None))[0]}-vs-{show_py(py[m.key]).split(' ')[0]}"
 				add(key, f'{m.key} = {m.text}: {bad}', {'source': source, 'member': m.key, 'text': m.text, 'emitted': text, 'eval': show_py(py[m.key]), 'features': sorted(m.feats), 'kind': 'output'})
@@ -1350,7 +1377,12 @@ STATEMENTS = {
 	'output_agree': "second observation point, no guard but one: whenever CPython evaluates the member value to v2 and the type answer of Reflections fits v2, the text Py2Cpp.on_relay inlines for Enum.Member.value (emitValue on top of execImpl: shortcut for Integer/Float tokens, str() of the folded value, parentheses for negatives, [1:-1] for str, relay/literalize.j2) read back denotes v2 with the same type",
 	'output_sound': 'and when on_relay fails instead it is a refusal (0X literals cut out)',
 	'upperhex_counterexample': 'guard H4 is necessary for sound/refuse: 0X1F is 31 in CPython, the folder raises a wrapped ValueError (an application error, allowed by the property)',
-	'escape_counterexample': "joining token texts does not commute with decoding escapes: the bodies \\1 and 2 join to \\12 = one newline character (known finding escape-merge-concat); tokens with a backslash are outside evalPy",
+	'escape_counterexample': "documentation of the hazard: plain _cat does not commute with decoding escapes (decodeEsc: octal, \\xhh, one-character and unknown escapes): the bodies \\1 and 2 would join to \\12 = one newline character; tokens with a backslash are outside evalPy",
+	'join_decodes': 'for ALL pairs of bodies: unless the left one ends inside an escape the right one continues (joinsEscape), decoding the joined body = joining the decoded bodies',
+	'catSafe_decodes': 'the positive statement about the SHIPPED join rule (since 05486b1 the string branch of _op_bin_each refuses when _joins_escape; the model step uses catSafe): what it returns decodes to the concatenation of what its operands decode to',
+	'pyInt_accepts_iff': "the model of Python's int(str), base 10, accepts exactly blanks sign? digit (_? digit)* blanks (blanks = C isspace + Unicode White_Space beyond ASCII) with the denoted value",
+	'pyInt_rejects': 'and answers ValueError for every other text',
+	'int_cast_accepts_iff': "the folder's int('<text>') yields n exactly for the texts of that grammar (applied to token[1:-1])",
 }
 
 
@@ -1392,14 +1424,14 @@ def run(ctx: Ctx) -> int:
 		partial={
 			'proved': 'a different value is never produced: agreement of value and type (no guard), or refusal, for every expression of the model (literals without backslash, unary sign, parentheses, the ten operators in flat chains, casts, member references), for every interpretation of float',
 			'correspondence_only': 'that execImpl is LiteralEvaluator on the Procedure machine and evalPy is CPython (incl. floor %, shifts, two\'s-complement bitwise ops, int()/float()/str() spellings)',
-			'search_only': 'string tokens with escape sequences (known finding escape-merge-concat), prefixed tokens, IEEE behaviour of the real floats',
+			'search_only': 'values of string tokens with escape sequences (evalPy answers unsupported; the join rule itself is proved to keep the decoding), IEEE behaviour of the real floats',
 		},
 		assumptions=[
 			'float is abstract: the theorems hold for every interpretation of add/sub/mul/div/mod/neg/ofInt/toInt/parse/toStr/truediv; the tie instantiates it with CPython floats',
 			'a member whose CPython evaluation raises is modelled as re-raising when read (CPython would abort the module)',
 			'names of enum members do not shadow the called builtins; own-enum members are referenced by bare name, other enums as Enum.Member.value',
 			'recursion depth of the generated cases stays below both Python\'s recursion limit and the model\'s fuel',
-			'int()/float() spellings are ASCII (no non-ASCII digits or blanks)',
+			'int()/float() digits are ASCII (non-ASCII decimal digits are outside pyInt and never generated; blanks are modelled: C isspace + Unicode White_Space beyond ASCII)',
 			"CPython's 4300-digit limit of int/str conversion is lifted in the harness process (the model has none)",
 		],
 		trusted=['the harness interpreter of float terms (harness/c17.py eval_term/answer) uses CPython float operations'])
